@@ -84,7 +84,10 @@ ConsistentServers ==
                        /\ ~(s.protected /\ s.requirepass) }  \* protected mode means: no password is requested
 Servers == IF ServerSet = "all" THEN ConsistentServers ELSE StatementServers
 
-NoConn == [st |-> "none", peer |-> "lo", authd |-> FALSE, tried |-> FALSE, sawRight |-> FALSE, n |-> 0]
+\* early: the connection was opened, and had an ordinary command answered, BEFORE the password was configured
+\* (CONFIG SET requirepass at run time); it never sent the password, so it is as unauthenticated as a fresh one
+NoConn == [st |-> "none", peer |-> "lo", authd |-> FALSE, tried |-> FALSE, sawRight |-> FALSE, n |-> 0, early |-> FALSE]
+Earlies(s) == IF s.requirepass THEN BOOLEAN ELSE {FALSE}
 Peers(s) == IF s.protected \/ NlEverywhere THEN {"lo", "nl"} ELSE {"lo"}
 Refuses(s, p) == s.protected /\ p = "nl"
 
@@ -142,10 +145,10 @@ Null == [k |-> "init"]
 
 Init == srv \in Servers /\ conn = NoConn /\ last = Null
 
-Connect(p) ==
+Connect(p, e) ==
   /\ conn.st = "none"
-  /\ p \in Peers(srv)
-  /\ conn' = [NoConn EXCEPT !.st = IF Refuses(srv, p) THEN "refused" ELSE "open", !.peer = p]
+  /\ p \in Peers(srv) /\ e \in Earlies(srv)
+  /\ conn' = [NoConn EXCEPT !.st = IF Refuses(srv, p) THEN "refused" ELSE "open", !.peer = p, !.early = e]
   /\ last' = [k |-> "connect", peer |-> p, i |-> "-", w |-> "-", pre |-> conn, post |-> conn',
               exp |-> ConnectGate(srv, p),
               out |-> [rep |-> IF Refuses(srv, p) THEN "denied" ELSE "accepted", chg |-> FALSE, leak |-> FALSE]]
@@ -161,7 +164,7 @@ CanSend(i, w) ==
   /\ conn.st \in {"open", "refused"}
   /\ conn.n < MaxCmds
   /\ <<i, w>> \notin Cannot
-  /\ (w \in HttpW => conn.n = 0 /\ ~conn.authd /\ ~conn.tried)   \* an HTTP request is a connection of its own
+  /\ (w \in HttpW => conn.n = 0 /\ ~conn.authd /\ ~conn.tried /\ ~conn.early)   \* an HTTP request is a connection of its own
 
 \* the connection after the step, given whether it is authenticated afterwards
 After(i, w, a) ==
@@ -190,7 +193,7 @@ Cmd(i, w) ==
                    out |-> [rep |-> r, chg |-> ch, leak |-> lk]]
   /\ UNCHANGED srv
 
-Next == (\E p \in {"lo", "nl"} : Connect(p)) \/ (\E i \in Insts, w \in Wrappers : Cmd(i, w))
+Next == (\E p \in {"lo", "nl"}, e \in BOOLEAN : Connect(p, e)) \/ (\E i \in Insts, w \in Wrappers : Cmd(i, w))
 Spec == Init /\ [][Next]_vars
 View == <<srv, conn>>
 
@@ -203,6 +206,7 @@ Lo == last'.out
 TypeOK ==
   /\ srv \in Servers
   /\ conn.st \in {"none", "open", "refused", "done"} /\ conn.peer \in {"lo", "nl"} /\ conn.n \in 0..MaxCmds
+  /\ conn.early \in BOOLEAN /\ (conn.early => srv.requirepass)
   /\ last.k \in {"init", "connect", "cmd"}
   /\ last.k # "init" => last.exp.rep # {} /\ last.exp.authd \in {"T", "F", "any"}
   /\ last.k = "cmd" => last.exp.rep \subseteq Classes /\ last.i \in Insts /\ last.w \in Wrappers
